@@ -493,7 +493,60 @@ def responses(chk, repo):
            "specifier")
 
 
+def drain_before_send(chk, repo):
+    """mbx_send: when the status read at its start shows a mail pending
+    (bit 3), that mail is fetched with mbx_recv() before the new request is
+    written - the answer to a request given up earlier is taken out of the
+    way and cannot be mistaken for the answer to this one.  Every path from
+    the true branch of the `status & 8` test to the mailbox write passes
+    the mbx_recv() call."""
+    sym = T + ".mbx_send"
+    f = repo.func(sym)
+    cfg = CFG(f, raises="await")
+    def pending_edge(e):
+        neg = False
+        while isinstance(e, ast.UnaryOp) and isinstance(e.op, ast.Not):
+            e, neg = e.operand, not neg
+        b = match("$s & 8 == 0", e) or match("$s & 8 != 8", e)
+        if b is not None:
+            return "true" if neg else "false"
+        if match("$s & 8", e) is not None or match("$s & 8 != 0", e) \
+                is not None or match("$s & 8 == 8", e) is not None:
+            return "false" if neg else "true"
+        return None
+    tests = [n for n in cfg.nodes if n.kind == "test"
+             and pending_edge(n.expr) is not None]
+    writes = [n for n in cfg.nodes if n.expr is not None and n.kind != "test"
+              and any(isinstance(c, ast.Call) and match(
+                  "self.write", c.func) is not None and c.args and match(
+                      "self.mbx_out_off", c.args[0]) is not None
+                  for c in walk_expr(n.expr))]
+    need(tests and writes, f"{sym}: status test / mailbox write not found")
+
+    def is_recv(n):
+        return n.expr is not None and bool(find("self.mbx_recv()", n.expr))
+    ok = True
+    path = None
+    for t in tests:
+        # (the false edge of the last `if` of a loop body is the loop edge)
+        other = "false" if pending_edge(t.expr) == "true" else "true"
+        starts = [m for m, lab in t.succ if lab not in (other, "exc")]
+        for st_ in starts:
+            class S:
+                succ = [(st_, "next")]
+            if not cfg.must_pass(S, is_recv, targets=[writes[0]]):
+                ok = False
+                w = cfg.witness_path(S, is_recv, targets=[writes[0]])
+                path = cfg.describe_path(w[1:]) if w else None
+    chk.ob("R16.7", sym, "a mail found pending is received before the "
+           "request is written", ok, tests[0].stmt, "mbx_recv() on every "
+           "path from `status & 8` to the write of the mailbox: waiting for "
+           "the flag to clear instead leaves the stale answer where the "
+           "answer to this request is looked for", path)
+
+
 def directions(chk, repo):
+    drain_before_send(chk, repo)
     for meth, own, other, status in (("mbx_send", "out", "in", 0x805),
                                      ("mbx_recv", "in", "out", 0x80D)):
         sym = T + "." + meth
